@@ -24,8 +24,11 @@ import (
 	"github.com/cossacklabs/acra/encryptor/base/config"
 	encmysql "github.com/cossacklabs/acra/encryptor/mysql"
 	encpg "github.com/cossacklabs/acra/encryptor/postgresql"
+	"github.com/cossacklabs/acra/hmac"
 	hqmysql "github.com/cossacklabs/acra/hmac/decryptor/mysql"
 	hqpg "github.com/cossacklabs/acra/hmac/decryptor/postgresql"
+	"github.com/cossacklabs/acra/pseudonymization"
+	"github.com/cossacklabs/acra/pseudonymization/storage"
 	"github.com/cossacklabs/acra/sqlparser"
 
 	"verifharness/internal/core"
@@ -600,17 +603,34 @@ func pgUnbound(bv base.BoundValue) []byte {
 
 func listStr(bs [][]byte) string { return env.List(bs) }
 
+type pgObserver interface {
+	OnQuery(ctx context.Context, query encpg.OnQueryObject) (encpg.OnQueryObject, bool, error)
+	OnBind(ctx context.Context, statement *pg_query.ParseResult, values []base.BoundValue) ([]base.BoundValue, bool, error)
+}
+
 // queryPG: the op body for dialect pg. Returns the canonical result line.
 func queryPG(v variant, hk string, kv *env.KV, colsTok string, c *cond, params [][]byte, rows []row) string {
 	ks := store(hk, kv)
 	schema, _ := schemaFor(colsTok, v.kind, v.typed, config.UsePostgreSQL)
 	hq := hqpg.NewHashQuery(ks, schema, crypto.NewRegistryHandler(ks))
+	return runPG(v, []pgObserver{hq}, c, params, rows)
+}
+
+// runPG sends the statement and its bound values through the observers in order, as the proxy's
+// ArrayQueryObservableManager does (each observer sees what the previous one produced).
+func runPG(v variant, observers []pgObserver, c *cond, params [][]byte, rows []row) string {
 	ctx := queryCtx()
 	two := maxTable(c) > 0
 	sql := statement(v, c, pgCond(v, c, two))
-	obj, _, err := hq.OnQuery(ctx, encpg.NewOnQueryObjectFromQuery(sql))
-	if err != nil {
-		return "err-query"
+	obj := encpg.NewOnQueryObjectFromQuery(sql)
+	for _, o := range observers {
+		n, changed, err := o.OnQuery(ctx, obj)
+		if err != nil {
+			return "err-query"
+		}
+		if changed {
+			obj = n
+		}
 	}
 	text, err := obj.Query()
 	if err != nil {
@@ -632,12 +652,17 @@ func queryPG(v variant, hk string, kv *env.KV, colsTok string, c *cond, params [
 			panic("harness: generated statement does not parse: " + sql)
 		}
 	}
-	nv, _, err := hq.OnBind(ctx, bindStmt, bvs)
-	if err != nil {
-		return "err-bind " + dc.String()
+	for _, o := range observers {
+		nv, changed, err := o.OnBind(ctx, bindStmt, bvs)
+		if err != nil {
+			return "err-bind " + dc.String()
+		}
+		if changed {
+			bvs = nv
+		}
 	}
 	var out [][]byte
-	for _, b := range nv {
+	for _, b := range bvs {
 		out = append(out, pgUnbound(b))
 	}
 	return fmt.Sprintf("ok %s %s %s", dc.String(), listStr(out), bitsOf(dc, rows, out))
@@ -804,10 +829,19 @@ func myWhere(v variant, st sqlparser.Statement, two bool) sqlparser.Expr {
 	panic("harness: unexpected statement kind")
 }
 
+type myObserver interface {
+	OnQuery(ctx context.Context, query encmysql.OnQueryObject) (encmysql.OnQueryObject, bool, error)
+	OnBind(ctx context.Context, statement sqlparser.Statement, values []base.BoundValue) ([]base.BoundValue, bool, error)
+}
+
 func queryMySQL(v variant, hk string, kv *env.KV, colsTok string, c *cond, params [][]byte, rows []row) string {
 	ks := store(hk, kv)
 	schema, _ := schemaFor(colsTok, v.kind, false, config.UseMySQL)
 	hq := hqmysql.NewHashQuery(ks, schema, crypto.NewRegistryHandler(ks))
+	return runMySQL(v, []myObserver{hq}, c, params, rows)
+}
+
+func runMySQL(v variant, observers []myObserver, c *cond, params [][]byte, rows []row) string {
 	ctx := queryCtx()
 	two := maxTable(c) > 0
 	vv := v
@@ -819,9 +853,15 @@ func queryMySQL(v variant, hk string, kv *env.KV, colsTok string, c *cond, param
 	}
 	sql := statement(vv, c, myCond(vv, c, two))
 	parser := sqlparser.New(sqlparser.ModeDefault)
-	obj, _, err := hq.OnQuery(ctx, encmysql.NewOnQueryObjectFromQuery(sql, parser))
-	if err != nil {
-		return "err-query"
+	obj := encmysql.NewOnQueryObjectFromQuery(sql, parser)
+	for _, o := range observers {
+		n, changed, err := o.OnQuery(ctx, obj)
+		if err != nil {
+			return "err-query"
+		}
+		if changed {
+			obj = n
+		}
 	}
 	text := obj.Query()
 	st, err := parser.Parse(text)
@@ -847,19 +887,84 @@ func queryMySQL(v variant, hk string, kv *env.KV, colsTok string, c *cond, param
 			panic("harness: generated statement does not parse: " + sql)
 		}
 	}
-	nv, _, err := hq.OnBind(ctx, bindStmt, bvs)
-	if err != nil {
-		return "err-bind " + dc.String()
+	for _, o := range observers {
+		nv, changed, err := o.OnBind(ctx, bindStmt, bvs)
+		if err != nil {
+			return "err-bind " + dc.String()
+		}
+		if changed {
+			bvs = nv
+		}
 	}
 	var out [][]byte
-	for _, b := range nv {
+	for _, b := range bvs {
 		d, _ := b.GetData(nil)
 		out = append(out, d)
 	}
 	return fmt.Sprintf("ok %s %s %s", dc.String(), listStr(out), bitsOf(dc, rows, out))
 }
 
+// ---- both observers of the proxies: consistent tokenization, then searchable encryption ----
+
+// chain: the statement goes through the tokenization observer and then the searchable-encryption
+// observer (the order of proxy.go), over rows stored the way the proxy stores them: a searchable column
+// holds hash ‖ envelope, a consistently tokenized column holds the token the REAL tokenizer (memory token
+// store) issues for the plaintext. Implementation and oracle only – the token values are random.
+func chain(dialect string, v variant, hk string, kv *env.KV, colsTok string, c *cond, params [][]byte, plainRows []row) string {
+	ks := store(hk, kv)
+	mysql := dialect == "mysql"
+	schema, _ := schemaFor(colsTok, v.kind, v.typed && !mysql, mysql)
+	kinds := parseKinds(colsTok)
+	st, err := storage.NewMemoryTokenStorage()
+	if err != nil {
+		panic("harness: " + err.Error())
+	}
+	pa, err := pseudonymization.NewPseudoanonymizer(st)
+	if err != nil {
+		panic("harness: " + err.Error())
+	}
+	dt, _ := pseudonymization.NewDataTokenizer(pa)
+	te, _ := pseudonymization.NewTokenEncryptor(dt)
+	reg := crypto.NewRegistryHandler(ks)
+	se, err := hmac.NewSearchableEncryptor(ks, reg, reg)
+	if err != nil {
+		panic("harness: " + err.Error())
+	}
+	var rows []row
+	for _, pr := range plainRows {
+		sr := row{}
+		for k, val := range pr {
+			setting := schema.GetTableSchema(fmt.Sprintf("t%d", k.tbl)).GetColumnEncryptionSettings(fmt.Sprintf("c%d", k.col))
+			switch kinds[k] {
+			case 's':
+				x, err := se.EncryptWithClientID([]byte(clientID), val, setting)
+				if err != nil {
+					return "err-store"
+				}
+				sr[k] = x
+			case 't':
+				x, err := te.EncryptWithClientID([]byte(clientID), val, setting)
+				if err != nil {
+					return "err-store"
+				}
+				sr[k] = x
+			default:
+				sr[k] = val
+			}
+		}
+		rows = append(rows, sr)
+	}
+	if mysql {
+		return runMySQL(v, []myObserver{pseudonymization.NewMySQLTokenizeQuery(schema, te), hqmysql.NewHashQuery(ks, schema, reg)}, c, params, rows)
+	}
+	return runPG(v, []pgObserver{pseudonymization.NewPostgresqlTokenizeQuery(schema, te), hqpg.NewHashQuery(ks, schema, reg)}, c, params, rows)
+}
+
 func init() {
+	// chain dialect hkey [kv ×4] cols cond params PLAIN rows variant → like `query`, through both observers
+	core.Register("C09.chain", func(a []string) string {
+		return chain(a[0], parseVariant(a[10]), a[1], env.ParseKV(a[2:6]), a[6], parseCond(a[7]), env.ParseList(a[8]), parseRows(a[9]))
+	})
 	// query dialect hkey [kv ×4] searchableCols cond params rows variant
 	// (the model ignores `variant`: the spelling of the statement must not matter)
 	core.Register("C09.query", func(a []string) string {
